@@ -39,6 +39,7 @@ func r1Values() []string {
 		`ech="b2xk" alpn="h3" ech="` + b64(0) + `"`,    // two entries, the LAST one is current for list 0: still two entries
 		`alpn="h2" key65400="x ech=y z" ech="b2xk"`,    // a quoted value with blanks, one of its words looks like an ech entry
 		`alpn="h2" ech`, // the key alone (an empty value in presentation format)
+		`alpn="h2" key65400="C:\\" ech="b2xk" port=8443`, // an escaped backslash right before the closing quote
 	}
 }
 
@@ -55,6 +56,9 @@ var targetPool = []target{
 	{"example.org", "sub.example.org"},
 	{"sub.example.org", "sub.example.org"},
 	{"sub.example.org", "www.example.org"}, // a name that exists in ANOTHER zone only: not found here
+	// index 8: r1's zone spelled with upper-case letters (the API matches zone names without regard to case and answers with
+	// the canonical spelling): the same record as index 0
+	{"Example.ORG", "example.org"},
 }
 
 const basePool = 5
@@ -221,6 +225,9 @@ func run(r *ev.Run, sc scenario) {
 						r.Violation("result-cannot-be-printed", fmt.Sprintf("%s target %d: status code %d; String()/Err().Error() panics: %v", tag, ti, res.Code, p), sc)
 					}
 				}()
+				if res.Code != publish.StatusError && res.Error != nil {
+					r.Violation("error-field-set-without-error-status", fmt.Sprintf("%s target %d: status %q, yet its Error field holds %v (another target's error)", tag, ti, res.String(), res.Error), sc)
+				}
 				_ = res.String()
 				if err := res.Err(); err != nil {
 					_ = err.Error()
@@ -246,7 +253,7 @@ func run(r *ev.Run, sc scenario) {
 		reportedUpdated := map[string]bool{}
 		for ti, t := range c.Targets {
 			tp := targetPool[t]
-			key := tp.Zone + "|" + tp.Name
+			key := strings.ToLower(tp.Zone) + "|" + tp.Name
 			named[key] = true
 			got := results[ti].Code
 			if got == publish.StatusUpdated {
@@ -459,6 +466,14 @@ func Run(r *ev.Run) {
 		for _, l := range l2 {
 			for c := 0; c < 2; c++ {
 				scs = append(scs, scenario{V1: 1, Calls: []call{{l, c}}, FailCall: -1}, scenario{V1: 1, Calls: []call{{l, c}, {l, 1 - c}}, FailCall: -1})
+			}
+		}
+	}
+	// the zone named with another letter case, alone and next to the canonical spelling
+	for _, l := range [][]int{{8}, {8, 0}, {0, 8}, {8, 1}, {8, 2}} {
+		for c := 0; c < 2; c++ {
+			for _, v1 := range []int{1, 3} {
+				scs = append(scs, scenario{V1: v1, Calls: []call{{l, c}}, FailCall: -1}, scenario{V1: v1, Calls: []call{{l, c}, {l, 1 - c}}, FailCall: -1})
 			}
 		}
 	}
